@@ -29,7 +29,7 @@ Init == /\ k = 0
         /\ g \in Grids(c)
         /\ SymConfigOk(c, g)
         /\ esw \in AdmissibleEsw(c, g)
-Next == k < 6 /\ k' = k + 1 /\ UNCHANGED <<c, g, esw>>
+Next == k < 7 /\ k' = k + 1 /\ UNCHANGED <<c, g, esw>>
 vars == <<c, g, esw, k>>
 Spec == Init /\ [][Next]_vars
 
@@ -61,4 +61,12 @@ Inv5 == (k = 5 /\ Rich) => { FindOp(c, g, esw, b).name : b \in AllBins(c) } = { 
 Inv6 == (k = 6 /\ c.mash = 1 /\ c.span = 1) =>
           /\ ChordClauses(c, g, esw)
           /\ (esw.s180 /\ c.maxTang >= 1 /\ c.minTang <= -1 /\ NumViews(c) >= 4) => \E b \in AllBins(c) : ~S2det(c, g, esw, b)
+\* block geometry (shift_z only): the configuration is re-read as BlocksOnCylindrical with cpb crystals per block
+BlocksOf(cpb) == [c EXCEPT !.mash = 1] @@ [cpb |-> cpb, uniform |-> TRUE]
+Inv7 == (k = 7 /\ c.span = 1 /\ c.mash = 1 /\ c.tofMash = 0) =>
+          \A cpb \in { x \in 1..c.R : c.R % x = 0 } : \A z \in BOOLEAN :
+            LET cb == BlocksOf(cpb)
+                gb == [g EXCEPT !.geom = "BlocksOnCylindrical"]
+                eb == [NoSym EXCEPT !.sz = z]
+            IN BlocksConfigOk(cb, gb) /\ \A b \in AllBins(cb) : S1Blocks(cb, gb, eb, b) /\ S2Blocks(cb, gb, eb, b)
 =============================================================================
